@@ -6,7 +6,8 @@ EXTENDS Validate, Json, SequencesExt
 CONSTANTS Emit
 
 NoMap == << >>
-N(kind, req) == [kind |-> kind, req |-> req, of |-> NoMap, req_of |-> NoMap]
+N(kind, req) == [kind |-> kind, req |-> req, of |-> NoMap, req_of |-> NoMap, ord |-> 0]
+Sec(n) == [kind |-> "sec", req |-> FALSE, of |-> NoMap, req_of |-> NoMap, ord |-> n]
 ClsOf    == ("Sub" :> {<<"arg">>, <<"bval">>, <<"sval">>}) @@ ("Other" :> {<<"arg">>, <<"cval">>}) @@ ("Base" :> {<<"arg">>, <<"bval">>})
 ClsReqOf == ("Sub" :> {<<"arg">>}) @@ ("Other" :> {<<"arg">>}) @@ ("Base" :> {<<"arg">>})
 Shape ==
@@ -15,12 +16,12 @@ Shape ==
   @@ (<<"dc">> :> N("ns", FALSE)) @@ (<<"dc", "xval">> :> N("leaf", TRUE)) @@ (<<"dc", "yval">> :> N("leaf", FALSE))
   @@ (<<"dc2">> :> N("ns", FALSE)) @@ (<<"dc2", "inner">> :> N("ns", FALSE)) @@ (<<"dc2", "inner", "xval">> :> N("leaf", TRUE))
   @@ (<<"dc2", "inner", "yval">> :> N("leaf", FALSE)) @@ (<<"dc2", "zval">> :> N("leaf", FALSE))
-  @@ (<<"model">> :> [kind |-> "cls", req |-> TRUE, of |-> ClsOf, req_of |-> ClsReqOf])
+  @@ (<<"model">> :> [kind |-> "cls", req |-> TRUE, of |-> ClsOf, req_of |-> ClsReqOf, ord |-> 0])
   @@ (<<"items">> :> N("list", FALSE)) @@ (<<"items", "#">> :> N("ns", FALSE)) @@ (<<"items", "#", "xval">> :> N("leaf", TRUE)) @@ (<<"items", "#", "yval">> :> N("leaf", FALSE))
   @@ (<<"d">> :> N("dict", FALSE))
   @@ (<<"subcommand">> :> N("leaf", TRUE))
-  @@ (<<"fit">> :> N("sec", FALSE)) @@ (<<"fit", "epochs">> :> N("leaf", TRUE)) @@ (<<"fit", "opt">> :> N("ns", FALSE)) @@ (<<"fit", "opt", "name">> :> N("leaf", FALSE))
-  @@ (<<"test">> :> N("sec", FALSE)) @@ (<<"test", "ckpt">> :> N("leaf", FALSE))
+  @@ (<<"fit">> :> Sec(1)) @@ (<<"fit", "epochs">> :> N("leaf", TRUE)) @@ (<<"fit", "opt">> :> N("ns", FALSE)) @@ (<<"fit", "opt", "name">> :> N("leaf", FALSE))
+  @@ (<<"test">> :> Sec(2)) @@ (<<"test", "ckpt">> :> N("leaf", FALSE))
 
 E(p, v) == [p |-> p, v |-> v]
 Valid(sub, cls) == {E(<<"top">>, "1"), E(<<"g", "alpha">>, "1"), E(<<"dc", "xval">>, "1"), E(<<"dc2", "inner", "xval">>, "1"),
@@ -84,6 +85,6 @@ DeviationShape == ForeignOnlyInDroppedSection(Shape, Cfg) => (mut.kind = "foreig
 CfgSeq == LET q == SetToSeq(Cfg) IN [j \in 1..Len(q) |-> [p |-> q[j].p, v |-> q[j].v]]
 EmitCase == Emit => PrintT(ToJson([base |-> base, mut |-> mut, cfg |-> CfgSeq, ref |-> Outcome(Shape, Cfg), alg |-> AlgOutcome(Shape, Cfg),
                                    dev |-> ForeignOnlyInDroppedSection(Shape, Cfg)]))
-ShapeSeq == LET q == SetToSeq(DOMAIN Shape) IN [j \in 1..Len(q) |-> [path |-> q[j], kind |-> Shape[q[j]].kind, req |-> Shape[q[j]].req]]
+ShapeSeq == LET q == SetToSeq(DOMAIN Shape) IN [j \in 1..Len(q) |-> [path |-> q[j], kind |-> Shape[q[j]].kind, req |-> Shape[q[j]].req, ord |-> Shape[q[j]].ord]]
 ASSUME Emit => PrintT(ToJson([shape |-> ShapeSeq]))
 =============================================================================
